@@ -20,10 +20,11 @@ VARIABLES l,
           snaps,     \* observations of the original topology taken by `snapshot` events
           snapok,    \* the last snapshot describes the original as it is now
           L,         \* length returned by the last get_length on the unmodified original (0: none)
-          imgs, fend,\* images in the file, end of the last one (bytes, page aligned)
+          imgs, fend,\* images in the file, end of the last one (in pages)
+          fresh,     \* the last modification of the original was a successful hwloc_topology_refresh()
           proc,      \* "master" | "adopter"
           free, live \* address space and adopted topologies of the adopter process
-vars == <<l, page, snaps, snapok, L, imgs, fend, proc, free, live>>
+vars == <<l, fresh, page, snaps, snapok, L, imgs, fend, proc, free, live>>
 
 NoH == [n |-> 0]
 E == T[l]
@@ -31,15 +32,18 @@ IsEvent(e) == l <= Len(T) /\ T[l].e = e /\ l' = l + 1
 B(x) == IF x THEN 1 ELSE 0
 
 Digests(o) == [pd |-> o.pd, xd |-> o.xd, sd |-> o.sd]
+\* file offsets are logged as whole pages + remainder (offsets of 2 GiB and more exceed TLC's integers); an offset is that pair
+Off(e) == <<e.off_pg, e.offrem>>
 Snap == snaps[Len(snaps)]
 LivePages == UNION {live[h].pages : h \in {k \in DOMAIN live : live[k].n = 1}}
 RoundUp(x) == ((x + page - 1) \div page) * page
 
-Init == /\ l = 1 /\ page = 4096 /\ snaps = <<>> /\ snapok = FALSE /\ L = 0 /\ imgs = {} /\ fend = 0
+Init == /\ l = 1 /\ fresh = FALSE /\ page = 4096 /\ snaps = <<>> /\ snapok = FALSE /\ L = 0 /\ imgs = {} /\ fend = 0
         /\ proc = "master" /\ free = {} /\ live = <<NoH, NoH>>
 
 TReset == /\ IsEvent("Reset")
           /\ E.page > 0
+          /\ fresh' = FALSE
           /\ page' = E.page /\ snaps' = <<>> /\ snapok' = FALSE /\ L' = 0 /\ imgs' = {} /\ fend' = 0
           /\ proc' = "master" /\ free' = {} /\ live' = <<NoH, NoH>>
 
@@ -47,6 +51,7 @@ TReset == /\ IsEvent("Reset")
 TLoad == /\ IsEvent("load")
          /\ proc = "master" /\ snaps = <<>>
          /\ E.ret \in {0, -1}
+         /\ fresh' = FALSE
          /\ UNCHANGED <<page, snaps, snapok, L, imgs, fend, proc, free, live>>
 
 PrepOps == {"restrict", "dist", "memattr", "memvalue", "cpukind", "info", "tinfo", "misc", "group", "subtype", "userdata", "allow", "refresh"}
@@ -54,13 +59,17 @@ TPrep == /\ IsEvent("prep")
          /\ proc = "master"
          /\ E.op \in PrepOps /\ E.ret \in -2..1
          /\ snapok' = FALSE /\ L' = 0              \* "the topology must not have been modified in the meantime"
+         /\ fresh' = (E.op = "refresh" /\ E.ret = 0)
          /\ UNCHANGED <<page, snaps, imgs, fend, proc, free, live>>
 
 TSnapshot == /\ IsEvent("snapshot")
              /\ proc = "master"
              /\ E.obs.full = 1
+             \* hwloc_topology_refresh(): "Once this refresh is done, multiple threads may concurrently consult the topology, objects,
+             \* distances, attributes, etc.": consulting right after it rewrites no internal cache (whatever the topology flags)
+             /\ fresh => E.cw = 0
              /\ snaps' = Append(snaps, E.obs) /\ snapok' = TRUE
-             /\ UNCHANGED <<page, L, imgs, fend, proc, free, live>>
+             /\ UNCHANGED <<fresh, page, L, imgs, fend, proc, free, live>>
 
 \* the length is usable by write(): positive and a whole number of pages; computing it does not move the topology
 TGetLength == /\ IsEvent("get_length")
@@ -72,15 +81,15 @@ TGetLength == /\ IsEvent("get_length")
                    \/ /\ x.fail /\ E.ret = -1 /\ E.errno \in x.errs
                       /\ L' = L
               /\ Digests(E.obs) = Digests(Snap)
-              /\ UNCHANGED <<page, snaps, snapok, imgs, fend, proc, free, live>>
+              /\ UNCHANGED <<fresh, page, snaps, snapok, imgs, fend, proc, free, live>>
 
 \* hwloc_shmem_topology_write in the writer process (a fork of the master: nothing is unmapped there but what the
 \* recorder unmapped for this call)
 TWrite == /\ IsEvent("write")
           /\ proc = "master" /\ snapok /\ L > 0
           /\ E.len = L + E.dlen /\ E.dlen >= 0        \* a length obtained with get_length (possibly more)
-          /\ E.off >= fend                            \* images are laid out one after the other
-          /\ E.offrem = E.off % page
+          /\ E.off_pg >= fend                         \* images are laid out one after the other
+          /\ E.offrem \in 0..(page - 1)
           /\ E.covers \in {0, 1} /\ E.size0 >= 0 /\ E.size1 >= 0 /\ Len(E.all0) = 4 /\ Len(E.all1) = 4   \* (file sizes and whole-file digests: logged, not constrained)
           /\ LET pages == PagesOf(E.addr_pg, E.addr_rem, E.len, page)
                  avail == Avail(Prepared({}, {}, pages, E.punch), pages)
@@ -92,29 +101,29 @@ TWrite == /\ IsEvent("write")
                 /\ Digests(E.obs) = Digests(Snap)
                 /\ \/ /\ x.succeed /\ E.ret = 0
                       /\ E.free_after = 1                   \* "temporarily mapped"
-                      /\ imgs' = imgs \cup {Image(E.off, E.addr_pg, E.addr_rem, E.len, Len(snaps))}
-                      /\ fend' = RoundUp(E.off + E.len)
+                      /\ imgs' = imgs \cup {Image(Off(E), E.addr_pg, E.addr_rem, E.len, Len(snaps))}
+                      /\ fend' = E.off_pg + (RoundUp(E.offrem + E.len) \div page)
                    \/ /\ x.fail /\ E.ret = -1 /\ E.errno \in x.errs
                       /\ E.free_after = E.avail             \* the range is left as it was found
                       /\ UNCHANGED <<imgs, fend>>
-          /\ UNCHANGED <<page, snaps, snapok, L, proc, free, live>>
+          /\ UNCHANGED <<fresh, page, snaps, snapok, L, proc, free, live>>
 
 \* the recorder damages / repairs one header or ABI byte of an image
 TPatch == /\ IsEvent("patch")
           /\ proc = "master" /\ E.ok = 1 /\ E.field \in HeaderFields
-          /\ \E i \in imgs : /\ i.off = E.off
+          /\ \E i \in imgs : /\ i.off = Off(E)
                              /\ imgs' = (imgs \ {i}) \cup {[i EXCEPT !.bad = Toggle(@, E.field)]}
-          /\ UNCHANGED <<page, snaps, snapok, L, fend, proc, free, live>>
+          /\ UNCHANGED <<fresh, page, snaps, snapok, L, fend, proc, free, live>>
 
 (* ---------------- adopter process ---------------- *)
 TAdopter == /\ IsEvent("adopter")
             /\ proc = "master"
             /\ proc' = "adopter" /\ free' = {} /\ live' = <<NoH, NoH>>
-            /\ UNCHANGED <<page, snaps, snapok, L, imgs, fend>>
+            /\ UNCHANGED <<fresh, page, snaps, snapok, L, imgs, fend>>
 TEnd == /\ IsEvent("end")
         /\ proc = "adopter"
         /\ proc' = "master" /\ free' = {} /\ live' = <<NoH, NoH>>
-        /\ UNCHANGED <<page, snaps, snapok, L, imgs, fend>>
+        /\ UNCHANGED <<fresh, page, snaps, snapok, L, imgs, fend>>
 
 \* what a live entry of the event says about handle k (1-based)
 Logged(k) == IF E.live[k].n = 0 THEN NoH
@@ -137,13 +146,13 @@ TAdopt == /\ IsEvent("adopt")
                  pages == PagesOf(E.addr_pg, E.addr_rem, E.len, page)
                  free1 == Prepared(free, LivePages, pages, E.punch)
                  avail == Avail(free1, pages)
-                 x == AdoptExpect(imgs, E.off, E.addr_pg, E.addr_rem, E.len, E.flags, avail)
+                 x == AdoptExpect(imgs, Off(E), E.addr_pg, E.addr_rem, E.len, E.flags, avail)
              IN /\ live[h].n = 0
                 /\ E.avail = B(avail)
                 /\ OthersSame(h)
                 /\ \/ /\ x.succeed /\ E.ret = 0
                       /\ E.free_after = 0
-                      /\ LET i == CHOOSE i \in Matching(imgs, E.off, E.addr_pg, E.addr_rem, E.len) : TRUE IN
+                      /\ LET i == CHOOSE i \in Matching(imgs, Off(E), E.addr_pg, E.addr_rem, E.len) : TRUE IN
                            /\ E.obs.full = 1
                            /\ IdenticalTo(E.obs, snaps[i.snap])
                            /\ WellFormed(E.obs.topo)                  \* "that satisfies C01"
@@ -156,7 +165,7 @@ TAdopt == /\ IsEvent("adopt")
                       /\ E.free_after = E.avail                        \* nothing of the attempt stays mapped, nothing else was unmapped
                       /\ E.live[h].n = 0
                       /\ live' = live /\ free' = free1
-          /\ UNCHANGED <<page, snaps, snapok, L, imgs, fend, proc>>
+          /\ UNCHANGED <<fresh, page, snaps, snapok, L, imgs, fend, proc>>
 
 \* hwloc_topology_destroy() unmaps cleanly
 TDestroy == /\ IsEvent("destroy")
@@ -168,7 +177,7 @@ TDestroy == /\ IsEvent("destroy")
                  /\ OthersSame(h)
                  /\ free' = free \cup live[h].pages
                  /\ live' = [live EXCEPT ![h] = NoH]
-            /\ UNCHANGED <<page, snaps, snapok, L, imgs, fend, proc>>
+            /\ UNCHANGED <<fresh, page, snaps, snapok, L, imgs, fend, proc>>
 
 (* calls on an adopted topology *)
 Refused == /\ E.ret = -1 \/ (E.op = "dist_release_remove" /\ E.nr = 0 /\ E.ret = -2)   \* -2: nothing to call it on
@@ -185,6 +194,12 @@ Consulted ==
                                    /\ Digests(E.dup) = [pd |-> live[h].pd, xd |-> live[h].xd, sd |-> live[h].sd]
                                    /\ E.x = 1 => E.dup_restrict = 0 /\ E.dup_npu = 1
        [] E.op = "get_length"   -> IF E.x = 0 THEN E.ret = 0 /\ E.len > 0 ELSE E.ret = -1
+       \* an adopted topology is a loaded topology: it can be measured, written for another address range and adopted from
+       \* there; that copy is observably identical too, and nothing of it stays mapped
+       [] E.op = "reshare"      -> /\ E.ret = 0 /\ E.rewrite = 0 /\ E.readopt = 0
+                                   /\ E.relen > 0 /\ E.relen % page = 0
+                                   /\ Digests(E.re) = [pd |-> live[h].pd, xd |-> live[h].xd, sd |-> live[h].sd]
+                                   /\ E.refree = 1
        [] E.op = "check"        -> E.ret = 0
        [] E.op = "set_userdata" -> E.ret = 0 /\ E.got = E.x
        [] E.op = "bind_get"     -> E.ret \in {0, -1}
@@ -225,7 +240,7 @@ TCall == /\ IsEvent("call")
             \/ E.op \in ConsultOps /\ Consulted /\ live' = live
             \/ E.op = "allow" /\ Allowed
             \/ E.op = "tinfo_add" /\ TInfoAdded
-         /\ UNCHANGED <<page, snaps, snapok, L, imgs, fend, proc, free>>
+         /\ UNCHANGED <<fresh, page, snaps, snapok, L, imgs, fend, proc, free>>
 
 Next == TReset \/ TLoad \/ TPrep \/ TSnapshot \/ TGetLength \/ TWrite \/ TPatch \/ TAdopter \/ TEnd \/ TAdopt \/ TDestroy \/ TCall
 Spec == Init /\ [][Next]_vars
